@@ -91,8 +91,8 @@ func init() {
 		{
 			ID:          "C03",
 			Rules:       []RuleUse{{Rule: "R-GATE", Bodies: []string{"v5", "codec"}, KeyHas: []string{"CreateMergePatch", "sink "}}, {Rule: "R-NIL", Bodies: []string{"v5"}, KeyHas: []string{"createArrayMergePatch", "createObjectMergePatch"}}, use("R-NUM", "v5", "codec"), {Rule: "R-POOLINIT", Bodies: []string{"codec"}, KeyHas: []string{"useNumber"}}, {Rule: "R-MAPORDER", Bodies: []string{"v5"}, KeyHas: []string{"getDiff", "matchesValue"}}, use("R-CMPSHAPE", "v5"), {Rule: "R-BOUNDS", Bodies: []string{"v5"}, KeyHas: []string{"createArrayMergePatch", "matchesArray"}}, use("R-EXH", "v5"), {Rule: "R-PANIC", Bodies: []string{"v5"}, KeyHas: []string{"getDiff", "matchesValue", "matchesArray"}}},
-			Explanation: "Decided for the v5 body: R-GATE (malformed input to CreateMergePatch is rejected before the validity-assuming parse), R-NIL over the create*MergePatch functions, R-NUM + R-POOLINIT/useNumber (numbers are decoded as literals, compared only by literal equality and written back unchanged — 'number literals are carried over unchanged'; two different literals can never compare equal through a machine number type), R-MAPORDER (the diff's map ranges have no order-sensitive effect). R-CMPSHAPE (rejection clause and completeness of the walk: mixed array/object roots return the mismatch error; unequal array lengths are rejected; every element pair goes through the object diff, whose error aborts; every successful return of getDiff has passed both the walk over the modified members and the walk over the original that emits removed members as null). R-BOUNDS over the pairwise array walks. R-EXH (every JSON type, including literal-preserving numbers, is handled by matchesValue — equal members are never reported — and by getDiff — no type falls into the panicking default).",
-			NotDecided:  "the round-trip law MergePatch(A, P) = B and minimality (value-level); deletion-as-null completeness.",
+			Explanation: "Decided for the v5 body: R-GATE (malformed input to CreateMergePatch is rejected before the validity-assuming parse), R-NIL over the create*MergePatch functions, R-NUM + R-POOLINIT/useNumber (numbers are decoded as literals, compared only by literal equality and written back unchanged — 'number literals are carried over unchanged'; two different literals can never compare equal through a machine number type), R-MAPORDER (the diff's map ranges have no order-sensitive effect). R-CMPSHAPE (rejection clause and completeness of the walk: mixed array/object roots return the mismatch error; unequal array lengths are rejected; every element pair goes through the object diff, whose error aborts; every successful return of getDiff has passed both the walk over the modified members and the walk over the original that emits removed members as null; every decode of an input must have succeeded — err == nil, not merely 'no syntax error' — before a patch is produced; the diff goes to the encoder as getDiff produced it; census of getDiff's stores: a member enters the patch only as b's value under b's key where a lacks the key, the dynamic types differ or a value comparison answered false — never inside the arm where a's value is an object — as the non-empty, error-tested recursive diff of two objects, or as null under a key of a that b lacks, and each of these classes has a store; matchesValue/matchesArray pair element i with element i and member k with member k under a size comparison that answers false, compare scalars as the two operands asserted to one type, and a false nested answer is final). R-BOUNDS over the pairwise array walks. R-EXH (every JSON type, including literal-preserving numbers, is handled by matchesValue — equal members are never reported — and by getDiff — no type falls into the panicking default).",
+			NotDecided:  "the round-trip law MergePatch(A, P) = B and minimality as value-level statements (what is decided is which stores can put a member into the patch and under which verdicts, not the contents of the decoded values).",
 			Trusted:     commonTrusted, Assumptions: commonAssumptions,
 		},
 		{
